@@ -22,6 +22,7 @@ func init() {
 			{ID: "C03-R5", Doc: "dependents released only by OK", Run: c03r5},
 			{ID: "C03-R6", Doc: "evaluator bookkeeping: pending/todo/wait-memo/dependency counts are maintained where the events happen", Run: c03r6},
 			{ID: "C03-R7", Doc: "the task's shared wait channel is retired only by Broadcast (cleared after close; made only when absent), so no waiter misses a state change", Run: c03r7},
+			{ID: "C03-R8", Doc: "a task is ready only if every dependency is satisfied (the readiness flag is a conjunction over the dependency loop)", Run: c03r8},
 		},
 	})
 }
